@@ -626,7 +626,7 @@ package main
 //@   requires [C06] owner_grp_only: t.cat != types.TopicCatGrp ==> (forall u types.Uid :: (u in t.perUser) ==> !hasO(t.perUser[u].modeGiven))
 //@   requires [C07] p2p_wf: t.cat == types.TopicCatP2P ==> (t.accessAuth & ^types.ModeCP2P) == 0 && (t.accessAnon & ^types.ModeCP2P) == 0 && (forall u types.Uid :: (u in t.perUser) ==> (t.perUser[u].modeGiven & ^types.ModeCP2P) == 0 && (t.perUser[u].modeGiven & types.ModeApprove) != 0)
 //@   modifies *
-//@   ensures [C10] counted_once_when_attached: forall u types.Uid :: (u in t.perUser) && old(u in t.perUser) && t.perUser[u].online > old(t.perUser[u].online) ==> u == types.ParseUserId(old(msg.AsUser)) && t.perUser[u].online == old(t.perUser[u].online) + 1 && !msg.sess.background && err == nil
+//@   ensures [C10] counted_once_when_attached: forall u types.Uid :: (u in t.perUser) && old(u in t.perUser) && t.perUser[u].online > old(t.perUser[u].online) ==> u == types.ParseUserId(old(msg.AsUser)) && t.perUser[u].online == old(t.perUser[u].online) + 1 && !msg.sess.background && err == nil && (msg.sess.multi == nil ==> (msg.sess in t.sessions))
 
 // Presence notifications pass only to holders of P, except removal and permission-change notices.
 //@ func (t *Topic) passesPresenceFilters(pres *MsgServerPres, uid types.Uid) (pass bool)
@@ -646,3 +646,8 @@ package main
 //@   requires [C10] t != nil
 //@   modifies inferred
 //@   ensures [C10] one_entry_set: forall k string :: (k in t.perSubs) ==> (old(k in t.perSubs) && t.perSubs[k].online == old(t.perSubs[k].online) && t.perSubs[k].enabled == old(t.perSubs[k].enabled)) || (t.perSubs[k].online == online && t.perSubs[k].enabled == enabled)
+
+//@ func (t *Topic) addSession(sess *Session, asUid types.Uid, isChanSub bool)
+//@   requires [C10] t != nil && sess != nil
+//@   modifies inferred
+//@   ensures [C10] attached: sess.multi == nil ==> (sess in t.sessions)
